@@ -3,6 +3,7 @@
    instance of the same generic model that the correspondence check runs against the implementation. *)
 From Coq Require Import List ZArith QArith Bool PrimFloat.
 From SV Require Import Base.Rounding Model.Grid Model.Noise Proofs.Noise.
+From SV Require Import Kernels.Gen11 Proofs.K11.
 Import ListNotations.
 
 (* chi-squared noise: unit draws of mean k and variance 2k (the generator's contract) give noise of mean
@@ -101,6 +102,17 @@ Print Assumptions c11_background_shared.
 Theorem c11_own_is_private : forall s v a b, a <> b -> (total_var (vstep s (StreamNoise a v)) b == total_var s b)%Q.
 Proof. exact own_is_private. Qed.
 Print Assumptions c11_own_is_private.
+
+(* the scalar expressions of the CURRENT source (Kernels/Gen11.v, regenerated on every run) are the model's *)
+Theorem c11_source_kernels : forall s i sigma r, ~ (sigma == 0)%Q -> ~ (r == 0)%Q ->
+  (src_get_intensity s sigma r == get_intensity_q s sigma r)%Q /\ (src_get_snr i sigma r == get_snr_q i sigma r)%Q.
+Proof. exact k11_all. Qed.
+Print Assumptions c11_source_kernels.
+Theorem c11_source_stream_noise : forall s v a, (a < length (own_var s))%nat ->
+  (nth a (own_var (vstep s (StreamNoise a v))) 0 == nth a (own_var s) 0 + v * v)%Q /\
+  forall sd, (sd * sd == nth a (own_var s) 0)%Q -> (src_stream_noise_var sd v == nth a (own_var (vstep s (StreamNoise a v))) 0)%Q.
+Proof. exact k_stream_noise_var. Qed.
+Print Assumptions c11_source_stream_noise.
 
 Example c11_example :
   (* a sample with mean 4 and variance 8 (k = 4): [0; 4; 4; 8] -> mean 4, var 8 *)
